@@ -143,6 +143,8 @@ def _work(arg):
             acc.violation('library-exception', acc.current, 'the library raised %s: %s while this case was being checked (%s)'
                           % (type(e).__name__, e, where), sig='library-exception:' + type(e).__name__)
             acc.caps.append('task %d aborted by a library exception' % idx)
+            for v in acc.violations:
+                v['task'] = idx
             return idx, acc.export()
         return idx, {'harness_error': 'task %r crashed:\n%s' % (task, traceback.format_exc())}
     finally:
@@ -242,8 +244,12 @@ def run_single_task(pid, task, tier, seed, clause, case):
         mod.run_task(task, acc)
     except env.HarnessError:
         raise
-    except Exception:  # noqa
-        pass
+    except Exception as e:  # noqa
+        # (a library exception that aborts the task is recorded by the worker with the case then being processed)
+        tb = traceback.extract_tb(e.__traceback__)
+        if clause == 'library-exception' and tb and os.path.abspath(tb[-1].filename).startswith(os.path.abspath(env.SRC) + os.sep) \
+                and json.dumps(acc.current, sort_keys=True, default=repr) == json.dumps(case, sort_keys=True, default=repr):
+            hit[0] = True
     return hit[0]
 
 
@@ -347,7 +353,11 @@ def run_check(pid, tier, seed, jobs=None, budget=None):
                 except Exception as ex:  # noqa
                     return ['raises ' + type(ex).__name__]
             c1, c2 = _rp(), _rp()
-            if c1 != c2 or c1 == ['(none)']:
+            if (c1 != c2 or c1 == ['(none)']) and 'task' in v and rerun_task_confirms(pid, tasks[v['task']], tier, seed, v):
+                # (as below: the exception depends on what earlier calls of the task left behind in the library)
+                v['task_replay'] = {'task': tasks[v['task']], 'tier': tier, 'seed': seed}
+                v['detail'] += ' [history-dependent: reproduces only after the preceding calls of its task; replay re-runs the task]'
+            elif c1 != c2 or c1 == ['(none)']:
                 sys.stdout.write('HARNESS-ERROR property=%s library exception did not reproduce on replay: %s / %s\n'
                                  % (pid, json.dumps(v, default=repr)[:600], c1))
                 return 2
